@@ -1,2 +1,11 @@
-"""see checks/bls_proto.py"""
+"""C02 -- see checks/bls_proto.py; plus the decoder contract the uniqueness argument consumes (owned by C11)."""
+from symx.harness import obligation
 from . import bls_proto  # noqa: F401
+from . import c11 as _c11
+
+# one signature per (key, message) needs the decoders to be functions of a canonical encoding: two different byte strings must
+# never decode to the same point.  The protocol obligations use the ideal codec; these tie the real decoders to it.
+obligation("C02", "codec_contract_decompress_G2", timeout=900,
+           bound="every pair of 384-bit words: accepted only in canonical form, re-encoding gives the same words (the C11 obligation)")(_c11.decompress_g2_all_words)
+obligation("C02", "codec_contract_byte_decoders",
+           bound="every 48- / 96-byte string: the byte helpers hand exactly the big-endian words to the word decoders (the C11 obligation)")(_c11.byte_decoders)
